@@ -596,7 +596,9 @@ fn adjacent_literals(sh: &mut Shard) {
     ];
     for c1 in contents {
         for c2 in contents {
-            for sep in [" ", " , ", "\n", " // c\n"] {
+            // (separators: white space, a comma, and comments with every kind of ending — a backslash, two, a
+            // quote, an escaped quote, an opened string, a wide character, a carriage return, nothing at all)
+            for sep in [" ", " , ", "\n", " // c\n", " //\n", " // c\\\n", " // c\\\\\n", " // \"\n", " // \\\"\n", " // \"open\n", " // é\n", " // c\r\n", " // c\\\r\n", " //\\\n//\\\n"] {
                 if !sh.mine() {
                     continue;
                 }
